@@ -101,6 +101,55 @@ func decodeKind(kind string, b []byte) (J, error) {
 	panic("decodeKind: unknown kind " + kind)
 }
 
+// decodeNoRaw decodes b and projects the value without raw bytes (content only).
+func decodeNoRaw(kind string, b []byte) (J, error) {
+	switch kind {
+	case "prot":
+		var h cose.ProtectedHeader
+		if err := h.UnmarshalCBOR(b); err != nil {
+			return nil, err
+		}
+		return J{"P": bucketNoNull(h), "U": []any{}}, nil
+	case "unprot":
+		var h cose.UnprotectedHeader
+		if err := h.UnmarshalCBOR(b); err != nil {
+			return nil, err
+		}
+		return J{"P": []any{}, "U": bucketNoNull(h)}, nil
+	case "sign1":
+		var m cose.Sign1Message
+		if err := m.UnmarshalCBOR(b); err != nil {
+			return nil, err
+		}
+		return noRawSign1(&m), nil
+	case "sign1u":
+		var m cose.UntaggedSign1Message
+		if err := m.UnmarshalCBOR(b); err != nil {
+			return nil, err
+		}
+		return noRawSign1((*cose.Sign1Message)(&m)), nil
+	case "sign":
+		var m cose.SignMessage
+		if err := m.UnmarshalCBOR(b); err != nil {
+			return nil, err
+		}
+		return noRawSign(&m), nil
+	case "sig":
+		var m cose.Signature
+		if err := m.UnmarshalCBOR(b); err != nil {
+			return nil, err
+		}
+		return noRawSig(&m), nil
+	case "csig":
+		var m cose.Countersignature
+		if err := m.UnmarshalCBOR(b); err != nil {
+			return nil, err
+		}
+		return noRawSig((*cose.Signature)(&m)), nil
+	}
+	panic("decodeNoRaw: unknown kind " + kind)
+}
+
 func init() {
 	// header grid: encode the in-memory structure (several times), decode the specification's image
 	execs["hdrgrid"] = func(c J) J {
@@ -145,11 +194,13 @@ func init() {
 		if encErr == nil && ev["enc"] == "ok" {
 			var err2 error
 			var dec2 J
-			if p := guard(func() { dec2, err2 = decodeKind(kind, out) }); p != "" {
+			if p := guard(func() { dec2, err2 = decodeNoRaw(kind, out) }); p != "" {
 				ev["outdec"] = "panic"
 			} else {
 				ev["outdec"] = okErr(err2)
-				_ = dec2
+				if err2 == nil {
+					ev["decout"] = dec2
+				}
 			}
 		}
 		_ = dec
